@@ -104,3 +104,9 @@ TEXT["C18"] = {
     "design_ref": "DESIGN.md section 3, C18",
     "level_note": "Sampling; magic header values come from tables built from the constants and parsing code paths of the client.",
 }
+TEXT["C16"] = {
+    "technique": "property-based testing with the schedule as the generated input: complete enumeration of answer orders / outcomes / cancellation points executed deterministically in testing/synctest bubbles (plus rapid-generated virtual-time variants); oracle = expected winner from the event order, reader-closure, context-liveness and bubble-goroutine invariants",
+    "level_text": "All 864 schedules of the grid 5 entry points x 4 outcome pairs x both completion orders x cancellation {none, before, between, after both, after close} x reader closed before/after the loser answers x Close ok/failing, plus members that answer only on cancellation, are executed on the real ociunify code inside synctest bubbles with synctest.Wait between events, so each schedule is exact and repeatable. For each: the call returns exactly when the events decide it, with the first successful answer; the loser's reader is closed; the chosen member's context is live until the returned reader is closed and cancelled afterwards; the bubble has no goroutine left. rapid adds virtual-time variants where simultaneous events accept either order. This is the one property whose quantifier (orders x outcomes x cancellation points) is finite and is covered completely.",
+    "design_ref": "DESIGN.md section 3, C16",
+    "level_note": "Needs go1.26.8 (testing/synctest). Members are scripted fakes; real I/O latencies are replaced by events.",
+}
